@@ -18,6 +18,7 @@ LEVEL = "model_checking"
 EQ = 1e-9
 FILES = ["OpenPinch/classes/stream.py", "OpenPinch/classes/stream_collection.py"]
 
+GAP = 1.0 / 1024       # smallest non-zero temperature span: well below the 0.01 K nominal span of isothermal streams
 OPS = ["t_supply", "t_target", "heat_flow", "dt_cont", "htc", "set_heat_flow"]
 
 
@@ -49,7 +50,7 @@ def body_stream(ctx, case):
     htc = ctx.real("htc", 0.01, 10)
     # legal initial shapes: distinct temperatures, or isothermal with a non-zero signed duty
     iso = h.close(ts, tt, 0.0)
-    ctx.assume(h.disj([ts - tt >= 0.01, tt - ts >= 0.01, h.conj([iso, q >= 1e-3])]))
+    ctx.assume(h.disj([ts - tt >= GAP, tt - ts >= GAP, h.conj([iso, q >= 1e-3])]))
     sign = 1.0
     if case.get("neg_latent"):
         sign = -1.0
@@ -64,8 +65,8 @@ def body_stream(ctx, case):
         if op in ("t_supply", "t_target"):
             v = ctx.real(f"v{k}", 0, 500)
             other = s.t_target if op == "t_supply" else s.t_supply
-            # legal: the new temperature pair is distinct by >= 0.01 K, or equal (latent) with non-zero duty
-            ctx.assume(h.disj([v - other >= 0.01, other - v >= 0.01, h.conj([h.close(v, other, 0.0), h.disj([s.heat_flow >= 1e-3, s.heat_flow <= -1e-3])])]))
+            # legal: the new temperature pair is distinct by >= GAP (below the 0.01 K nominal span given to latent streams), or equal (latent) with non-zero duty
+            ctx.assume(h.disj([v - other >= GAP, other - v >= GAP, h.conj([h.close(v, other, 0.0), h.disj([s.heat_flow >= 1e-3, s.heat_flow <= -1e-3])])]))
             setattr(s, op, v)
         elif op == "heat_flow":
             v = ctx.real(f"v{k}", 0, 1e4)
@@ -218,10 +219,10 @@ FAMILIES = [
                    "Stream._set_hot_stream_min_max_temperatures", "Stream._set_cold_stream_min_max_temperatures",
                    "property setters t_supply/t_target/heat_flow/dt_cont/htc"],
         files=["OpenPinch/classes/stream.py"],
-        bounds="constructor arguments symbolic (Ts,Tt in [0,500], duty in [0,1e4], dT_cont in [0,20], htc in [0.01,10]; |Ts-Tt| >= 0.01 or isothermal with "
+        bounds="constructor arguments symbolic (Ts,Tt in [0,500], duty in [0,1e4], dT_cont in [0,20], htc in [0.01,10]; |Ts-Tt| >= 1/1024 or isothermal with "
                "non-zero duty, positive or negative) followed by every sequence of 1-2 (thorough: 3) assignments chosen by the solver from "
                "{t_supply, t_target, heat_flow, dt_cont, htc, set_heat_flow} with symbolic values in the same ranges",
-        assumptions=["floats modelled as exact reals", "htc > 0 on assignment; temperatures assigned keep |Ts-Tt| >= 0.01 K or are exactly equal with non-zero duty"],
+        assumptions=["floats modelled as exact reals", "htc > 0 on assignment; temperatures assigned keep |Ts-Tt| >= 1/1024 K or are exactly equal with non-zero duty"],
         shim_modules=["OpenPinch.classes.stream"], reach=["op:t_supply", "op:set_heat_flow", "op:htc"], split_paths=60, validate_every=3,
     ),
     Family(
